@@ -9,7 +9,8 @@ event applied through one of the three handles (and to the twin); after every
 event all handles and the twin must show identical tables, bookkeeping and
 answers.  Then the handles are dropped in every order: dropping a view leaves
 the owner's contents intact and the segment in place, dropping the owner
-removes /dev/shm/<name>.
+removes /dev/shm/<name>.  The same is done (to depth 2) for systems whose owner was
+obtained through load(file, shared_memory=True) of a non-empty saved sketch.
 """
 import copy
 import itertools
@@ -69,14 +70,36 @@ def events(kind, args):
     return evs
 
 
-def build(kind, args):
+def build(kind, args, via_load=False):
     from sketchnu.helpers import attach_shared_memory
 
-    owner = SK.make(kind, *args, shared_memory=True)
+    if via_load:
+        # the owner comes from load(file, shared_memory=True) of a non-empty saved sketch
+        import tempfile
+
+        pre = SK.make(kind, *args)
+        if hasattr(pre, "rand_nums"):
+            SK.install_draws(pre, DRAWS)
+        pre.add(alphabet(kind, args)[0], 2)
+        pre.add(b"pre-only", 1)
+        fd, path = tempfile.mkstemp(suffix=".npz", dir="/dev/shm")
+        os.close(fd)
+        try:
+            pre.save(path)
+            owner = SK.classes()[kind].load(path, True)
+        finally:
+            os.unlink(path)
+    else:
+        owner = SK.make(kind, *args, shared_memory=True)
     v1 = SK.make(kind, *args)
     v1.attach_existing_shm(owner.shm.name)
     v2 = attach_shared_memory(TYPE[kind], owner.args, owner.shm.name)
     twin = SK.make(kind, *args)
+    if via_load:
+        if hasattr(twin, "rand_nums"):
+            SK.install_draws(twin, DRAWS)
+        twin.add(alphabet(kind, args)[0], 2)
+        twin.add(b"pre-only", 1)
     M = SK.make(kind, *args)
     A = alphabet(kind, args)
     if hasattr(M, "rand_nums"):
@@ -124,13 +147,19 @@ def observe(sk, kind, uni):
     return (SK.tables(sk), answers(sk, kind, uni))
 
 
-def run_history(kind, args, evs, order, check_every=True):
+def run_history(kind, args, evs, order, check_every=True, via_load=False):
     """Fresh objects, apply evs, compare after each event, then drop handles in
     `order`.  Returns a list of problem strings."""
     probs = []
-    handles, twin, M = build(kind, args)
+    handles, twin, M = build(kind, args, via_load)
+    if via_load:
+        ref0 = observe(twin, kind, alphabet(kind, args) + [b"never", b"m-only", b"pre-only"])
+        for hi, h in enumerate(handles):
+            if observe(h, kind, alphabet(kind, args) + [b"never", b"m-only", b"pre-only"]) != ref0:
+                probs.append(f"right after load(shared_memory=True) + attach: handle {hi} "
+                             f"({'owner' if hi == 0 else 'view'}) differs from the saved sketch")
     name = handles[0].shm.name
-    uni = alphabet(kind, args) + [b"never", b"m-only"]
+    uni = alphabet(kind, args) + [b"never", b"m-only", b"pre-only"]
     try:
         for i, ev in enumerate(evs):
             op = ev[0]
@@ -201,6 +230,19 @@ def task(arg):
     n = steps = 0
     sample = None
     try:
+        # systems whose owner was obtained through load(..., shared_memory=True)
+        for d in range(0, 3):
+            for seq in itertools.product(evs, repeat=d):
+                order = ORDERS[n % 6]
+                p = run_history(kind, args, seq, order, via_load=True)
+                n += 1
+                steps += len(seq) + 3
+                if p:
+                    sub.violation(
+                        {"kind_": kind, "args": args, "events": [list(e) for e in seq],
+                         "order": list(order), "via_load": True},
+                        f"{kind}{args} (owner from load(shared_memory=True)): {p[0]}",
+                    )
         for d in range(0, D + 1):
             for seq in itertools.product(evs, repeat=d):
                 orders = ORDERS if d <= 1 else [ORDERS[n % 6]]
@@ -287,5 +329,6 @@ def replay(case):
 
         cm.sleep = hh.sleep = hl.sleep = real
     evs = [tuple(e) for e in case["events"]]
-    p = run_history(case["kind_"], case["args"], evs, tuple(case["order"]))
+    p = run_history(case["kind_"], case["args"], evs, tuple(case["order"]),
+                    via_load=bool(case.get("via_load")))
     return bool(p), {"problems": p[:4]}
